@@ -36,6 +36,16 @@ def run(tier, seed):
             line = b"gemini://h/" + b"a" * (n - 11 - 2) + b"\r\n" + b"trail"
             segs = [s for s in sg.segmentations(line, 1)][:: (40 if tier == "quick" else 7)]
             groups.append((cfg, line, tail_for(cfg), segs))
+        # a request followed by more than MAX_REQUEST_SIZE further bytes (surplus after a Gemini line, a large Titan body):
+        # cuts at and around the CR/LF boundary, so that a read starting with "\n" carries > 1 KiB
+        for req in (b"gemini://h/x\r\n" + b"z" * 1100,
+                    b"titan://h/f;size=1200;mime=text/plain\r\n" + bytes(i % 251 for i in range(1200)),
+                    b"gemini://h/" + b"a" * 990 + b"\r\n" + b"q" * 1100):
+            crlf = req.index(b"\r\n")
+            cuts = sorted({c for c in (1, crlf - 1, crlf, crlf + 1, crlf + 2, crlf + 3, 1023, 1024, 1025, 1026, len(req) - 1) if 0 < c < len(req)})
+            segs = [[req[:c], req[c:]] for c in cuts]
+            segs += [[req[:crlf + 1], req[crlf + 1:crlf + 2], req[crlf + 2:]], [req[:crlf], req[crlf:crlf + 1], req[crlf + 1:]]]
+            groups.append((cfg, req, tail_for(cfg), segs))
     nrand = 300 if tier == "quick" else 5000
     for _ in range(nrand):
         cfg = sg.gen_cfg(rng); cfg["hres"] = ("async",)
